@@ -955,10 +955,16 @@ class ParsedBindingKey(typing.NamedTuple):
   def scope_selector_arg(self):
     return self.scope, self.complete_selector, self.arg_name
 
-  def __equal__(self, other):
+  def __eq__(self, other):
     # Equality ignores the `given_selector` field, since two binding keys should
     # be equal whenever they identify the same parameter.
+    if not isinstance(other, ParsedBindingKey):
+      return NotImplemented
     return self.scope_selector_arg == other.scope_selector_arg
+
+  def __ne__(self, other):
+    result = self.__eq__(other)
+    return result if result is NotImplemented else not result
 
   def __hash__(self):
     return hash(self.scope_selector_arg)
